@@ -1,3 +1,86 @@
-import Econf.Layered
+import Econf.Lemmas.LayeredLemmas
+
+/-!
+  C16 — owner, group and symlink restrictions gate every file of every read.
+
+  Every file of every read entry point goes through `readFileCB`; between `lstat` and the
+  callback stands `gate`, which looks at the consulted directory entry itself (for a symbolic link:
+  the link, not its target) and at the process-wide restriction flags.
+-/
+
+set_option linter.unusedSimpArgs false
+
 namespace Econf
+
+/-- what the gate answers, restriction by restriction, in the order the library checks them -/
+theorem C16_gate (g : Global) (node : Node) :
+    (g.allowSymlinks = false → isLinkNode node = true → gate g node = some .fileIsSymLink) ∧
+    (¬(g.allowSymlinks = false ∧ isLinkNode node = true) → g.ownerSet = true → (ownerOf node).1 ≠ g.owner → gate g node = some .wrongOwner) ∧
+    (¬(g.allowSymlinks = false ∧ isLinkNode node = true) → ¬(g.ownerSet = true ∧ (ownerOf node).1 ≠ g.owner) →
+       g.groupSet = true → (ownerOf node).2 ≠ g.group → gate g node = some .wrongGroup) ∧
+    (¬(g.allowSymlinks = false ∧ isLinkNode node = true) → ¬(g.ownerSet = true ∧ (ownerOf node).1 ≠ g.owner) →
+       ¬(g.groupSet = true ∧ (ownerOf node).2 ≠ g.group) → gate g node = none) := by
+  unfold gate
+  refine ⟨?_, ?_, ?_, ?_⟩
+  · intro h1 h2; simp [h1, h2]
+  · intro h1 h2 h3
+    have : (!g.allowSymlinks && isLinkNode node) = false := by
+      cases ha : g.allowSymlinks <;> cases hl : isLinkNode node <;> simp_all
+    simp [this, h2, h3]
+  · intro h1 h2 h3 h4
+    have a : (!g.allowSymlinks && isLinkNode node) = false := by
+      cases ha : g.allowSymlinks <;> cases hl : isLinkNode node <;> simp_all
+    have b : (g.ownerSet && (ownerOf node).1 != g.owner) = false := by
+      cases ho : g.ownerSet <;> simp_all
+    simp [a, b, h3, h4]
+  · intro h1 h2 h3
+    have a : (!g.allowSymlinks && isLinkNode node) = false := by
+      cases ha : g.allowSymlinks <;> cases hl : isLinkNode node <;> simp_all
+    have b : (g.ownerSet && (ownerOf node).1 != g.owner) = false := by
+      cases ho : g.ownerSet <;> simp_all
+    have c : (g.groupSet && (ownerOf node).2 != g.group) = false := by
+      cases hg : g.groupSet <;> simp_all
+    simp [a, b, c]
+
+/-- a refused file is neither shown to the callback nor opened, its content never reaches a result,
+    and the read of that file ends with the specific code -/
+theorem C16_refused (ctx : RdCtx) (s : RdState) (join python : Bool) (path delim comment : Str) (node : Node) (e : Err)
+    (hl : ctx.fs.lstat path = some node) (hg : gate s.g node = some e) :
+    readFileCB ctx s join python path delim comment = (s, .error e) := by
+  unfold readFileCB
+  simp only [hl, hg]
+
+/-- after the reset call every file passes the gate -/
+theorem C16_reset (g : Global) (node : Node) : gate (resetSecurity g) node = none := by
+  unfold gate resetSecurity; simp
+
+/-- if every file that can be consulted satisfies the rules in force, the read returns what the
+    unrestricted read (after the reset call) returns — for the history of a layered read … -/
+theorem C16_all_pass_history (fs : FS) (s : RdState) (dirs : List Str) (name suffix : Option Str) (delim : Option Str)
+    (comment : Str) (join python : Bool) (confDirs : List Str)
+    (hpass : ∀ p node, fs.lstat p = some node → gate s.g node = none) :
+    (readHistory { fs := fs, cb := none } s dirs name suffix delim comment join python confDirs).2 =
+      (readHistory { fs := fs, cb := none } { s with g := resetSecurity s.g } dirs name suffix delim comment join python confDirs).2 := by
+  exact (readHistory_sim fs none none (fun _ _ _ => rfl) s { s with g := resetSecurity s.g } rfl dirs name suffix delim comment join python confDirs
+    (fun p node hn => by rw [hpass p node hn, C16_reset])).1
+
+/-- … and for a single file -/
+theorem C16_all_pass_file (fs : FS) (s : RdState) (join python : Bool) (path delim comment : Str)
+    (hpass : ∀ node, fs.lstat path = some node → gate s.g node = none) :
+    (readFileCB { fs := fs, cb := none } s join python path delim comment).2 =
+      (readFileCB { fs := fs, cb := none } { s with g := resetSecurity s.g } join python path delim comment).2 := by
+  exact (readFileCB_sim fs none none s { s with g := resetSecurity s.g } join python path delim comment rfl
+    (fun node hn => by rw [hpass node hn, C16_reset]) rfl).1
+
+/-- the first refused file of a sequence ends the read with its code; no later file is touched -/
+theorem C16_first_refused (ctx : RdCtx) (s : RdState) (join python : Bool) (delim comment : Str) (p : Str) (ps : List Str)
+    (node : Node) (e : Err) (hl : ctx.fs.lstat p = some node) (hg : gate s.g node = some e) :
+    readSeq ctx join python delim comment s (p :: ps) = (s, .error e) := by
+  simp only [readSeq, C16_refused ctx s join python p delim comment node e hl hg]
+
+/-- non-vacuity: a foreign-owned symbolic link under "owner 0, no symlinks" is refused as a link -/
+example : gate { ownerSet := true, owner := 0, allowSymlinks := false } (.link [0x2f, 0x78] 4242 0) = some .fileIsSymLink ∧
+    gate { ownerSet := true, owner := 0 } (.link [0x2f, 0x78] 4242 0) = some .wrongOwner ∧
+    gate { ownerSet := true, owner := 0 } (.file [] 0 7) = none := by decide
+
 end Econf
